@@ -159,6 +159,20 @@ def check_c02(tier, t0):
                         "replay": {"kind": "field", "tag": nt["tag"], "content": nt["content"], "serialised": nt.get("ser")}})
     log("[C02] field level: %d accepted contents of %d field types re-parsed from their own serialisation, %d mismatch signatures" %
         (s["c02_evaluated"], s["fields"], len(s["c02_violations"])))
+    # amount level: every accepted amount / rate text of Decimal.tla (all precision classes, all amount-bearing fields)
+    from common import run_tlc, tlc_require_clean, extract_json_lines
+    dcfg = "Decimal_thorough.cfg" if tier == "thorough" else "Decimal_quick.cfg"
+    dmc = run_tlc("MC_Decimal.tla", dcfg, wd, timeout=1500)
+    tlc_require_clean(dmc, "Decimal")
+    dcases = os.path.join(wd, "amount_cases.ndjson")
+    extract_json_lines(dmc["out_path"], dcases)
+    os.remove(dmc["out_path"])
+    dout = os.path.join(wd, "amounts_out.json")
+    run_harness(["amounts", "--cases", dcases, "--out", dout])
+    ds = json.load(open(dout))
+    vio += [{"sig": v["sig"], "replay": v["replay"]} for v in ds["c02_violations"]]
+    log("[C02] amount level: %d accepted amount texts re-parsed from their own serialisation, %d mismatch signatures" %
+        (ds["c02_evaluated"], len(ds["c02_violations"])))
     # envelope level: every admitted header / trailer shape of Envelope.tla
     es, emc, ecfg = run_envelope(wd, tier)
     vio += [{"sig": v["sig"], "replay": v["replay"]} for v in es["c02_violations"]]
@@ -174,6 +188,11 @@ def check_c02(tier, t0):
     cov["transitions"] += emc["generated"]
     cov["evaluations"] += es["c02_evaluated"]
     cov["envelope_level_shapes"] = es["c02_evaluated"]
+    cov["states"] += dmc["distinct"]
+    cov["transitions"] += dmc["generated"]
+    cov["evaluations"] += ds["c02_evaluated"]
+    cov["amount_level_texts"] = ds["c02_evaluated"]
+    cov["rule"] += "; amount level: every accepted amount / rate text of Decimal.tla (" + dcfg + ") serialised, re-parsed and compared"
     cov["rule"] += "; envelope level: every admitted shape of Envelope.tla (" + ecfg + ") serialised, re-parsed and compared"
     return report("C02", tier, "model_checking", vio, cov, MSG_ASSUMPTIONS, t0)
 
